@@ -434,7 +434,7 @@ def change_op():
 def macro_op():
     """fixed skeletons of related steps whose parameters are generated (which statement, which file, -j, schedule):
     they construct multi-step shapes that independent draws would need ~1e5 histories to line up"""
-    return st.fixed_dictionaries(dict(op=st.sampled_from(['m_swap_then_edit', 'm_rehide_then_edit', 'm_fail_then_fix', 'm_bloat_then_rebuild', 'm_missing_oo_source', 'm_overlapping_failures', 'm_partial_restat_then_noop']),
+    return st.fixed_dictionaries(dict(op=st.sampled_from(['m_swap_then_edit', 'm_rehide_then_edit', 'm_fail_then_fix', 'm_bloat_then_rebuild', 'm_missing_oo_source', 'm_overlapping_failures', 'm_partial_restat_then_noop', 'm_alias_file_then_edit']),
                                       a=st.integers(0, 30), b=st.integers(0, 30), c=st.integers(0, 5),
                                       j=st.sampled_from([1, 2, 3]), sched=SCHED))
 
